@@ -134,13 +134,35 @@ func runPart(part []*Case, res []Result) {
 		}
 		c := part[done]
 		res[c.ID] = Result{ID: c.ID, OK: false, What: "crash", Detail: what}
+		if strings.Contains(what, "no answer") {
+			// a stall (possibly only a loaded machine): run the case alone with a generous limit; when it
+			// stalls again but the defining reduction alone stalls as well, the case is just too expensive
+			// (e.g. a doubling body over many overlapping paths), not a discrepancy
+			id := c.ID
+			alone := *c
+			alone.ID = 0
+			rr := []Result{{ID: -1}}
+			if d, w := runChildT([]*Case{&alone}, rr, 6*caseTimeout); d == 1 {
+				rr[0].ID = id
+				res[id] = rr[0]
+			} else if c.Kind == "eq" {
+				res[id].Detail = w
+				ref := &Case{ID: 0, Kind: "refonly", Q: []string{c.Q[1]}, Input: c.Input}
+				rr[0].ID = -1
+				if d, _ := runChildT([]*Case{ref}, rr, 6*caseTimeout); d == 0 {
+					res[id] = Result{ID: id, OK: true, Class: "stall-in-both"}
+				}
+			}
+		}
 		part = part[done+1:]
 	}
 }
 
 const caseTimeout = 10 * time.Second
 
-func runChild(part []*Case, res []Result) (int, string) {
+func runChild(part []*Case, res []Result) (int, string) { return runChildT(part, res, caseTimeout) }
+
+func runChildT(part []*Case, res []Result, limit time.Duration) (int, string) {
 	cmd := exec.Command(os.Args[0], "child")
 	stdin, _ := cmd.StdinPipe()
 	stdout, _ := cmd.StdoutPipe()
@@ -184,8 +206,8 @@ loop:
 			}
 			res[r.ID] = r
 			done++
-		case <-time.After(caseTimeout):
-			what = fmt.Sprintf("no answer within %v (killed)", caseTimeout)
+		case <-time.After(limit):
+			what = fmt.Sprintf("no answer within %v (killed)", limit)
 			cmd.Process.Kill()
 			break loop
 		}
